@@ -12,7 +12,8 @@ namespace dmlc {
 namespace io {
 
 void IndexedRecordIOSplitter::ResetPartition(unsigned rank, unsigned nsplit) {
-  size_t ntotal = index_.size();
+  // index_ holds one entry per record plus the end sentinel appended by ReadIndexFile
+  size_t ntotal = index_.size() - 1;
   size_t ntotalbytes = file_offset_.back();
   size_t nstep = (ntotal + nsplit - 1) / nsplit;
   if (rank * nstep >= ntotal) {
@@ -25,8 +26,7 @@ void IndexedRecordIOSplitter::ResetPartition(unsigned rank, unsigned nsplit) {
     offset_end_ = index_[index_end_].first;
   } else {
     offset_end_ = ntotalbytes;
-    index_end_ = index_.size();
-    index_.push_back(std::make_pair(offset_end_, 0));
+    index_end_ = ntotal;
   }
   offset_curr_ = offset_begin_;
   file_ptr_ = std::upper_bound(file_offset_.begin(), file_offset_.end(), offset_begin_)
@@ -61,6 +61,8 @@ void IndexedRecordIOSplitter::ReadIndexFile(FileSystem *fs, const std::string &i
       index_.push_back(std::make_pair(temp[j], temp[j + 1] - temp[j]));
     }
     index_.push_back(std::make_pair(temp.back(), file_offset_.back() - temp.back()));
+    // end sentinel: index_[i + 1].first is where record i ends, also for the last record
+    index_.push_back(std::make_pair(file_offset_.back(), 0));
   }
 }
 
